@@ -113,7 +113,7 @@ def run(ctx):
             flag = describe_operand(b, c.args[1])
             want = "True" if res == ["RequiresEvent"] else "False"
             r.check(flag == want, "retain/do_write-flag/%s" % (res[0] if res else "?"), c.loc(), "do_write(tx, %s) for %s" % (flag, res), "do_write(tx, %s) for %s" % (flag, res))
-            ps = [x for x in b.calls if x.name == "push" and describe_operand(b, x.args[0]).endswith("pending_writes") and b.dominates(c.block, x.block)]
+            ps = [x for x in b.calls if x.name == "push" and (x.self_adt or "").endswith("futures_unordered::FuturesUnordered") and b.dominates(c.block, x.block)]
             r.check(bool(ps), "retain/do_write-scheduled/%s" % (res[0] if res else "?"), c.loc(), "the write future is pushed to pending_writes")
         back = {c.block for c in b.calls if c.name == "insert" and is_item_writers(b, c.args[0])}
         ok, wit = b.must_pass([ve["Some"]], {c.block for c in dw} | back)
